@@ -207,8 +207,21 @@ func rtExec(c Sx) Sx {
 	main := rtBuild(c, true)
 	twin := rtBuild(c, false)
 	var qs []Sx
-	for _, q := range xs[3].Lst() {
+	for k, q := range xs[3].Lst() {
 		m, p := q.List[1].Str(), q.List[2].Str()
+		// the read-only inspection API is used between lookups: it must not disturb the tables
+		switch k % 4 {
+		case 1:
+			_ = main.r.Routes()
+			_ = twin.r.Routes()
+		case 2:
+			_ = main.r.String()
+			main.r.IterateRoutes(func(*rux.Route) {})
+			_ = main.r.NamedRoutes()
+		case 3:
+			_ = main.r.GetRoute("r0")
+			_ = main.r.Handlers()
+		}
 		switch q.Head() {
 		case "m":
 			res := main.match(m, p)
